@@ -24,6 +24,7 @@ import subprocess
 import sys
 import time
 
+import c20_cxx
 import extract_c20
 import vlib
 from vlib import Driver, finish, pmap, prove, rng_for, run, workdir
@@ -121,10 +122,12 @@ for line in sys.stdin:
 def _limits():
     import resource
     resource.setrlimit(resource.RLIMIT_AS, (1 << 31, 1 << 31))
+    resource.setrlimit(resource.RLIMIT_CPU, (60, 61))
 
 
 def run_helper(wd, root, jobs, timeout=60):
-    """Run the real script's functions (cwd = root) on the jobs. Returns list of result dicts; a
+    """`timeout` is a CPU-time limit (robust against machine load); the wall-clock limit is 30x that.
+    Run the real script's functions (cwd = root) on the jobs. Returns list of result dicts; a
     timeout gives [{"ok": False, "error": "timeout"}] * len(jobs)."""
     hp = os.path.join(wd, "helper.py")
     if not os.path.exists(hp):
@@ -133,7 +136,7 @@ def run_helper(wd, root, jobs, timeout=60):
     try:
         p = subprocess.run([sys.executable, hp, SCRIPT, root, str(int(timeout))],
                            input="".join(json.dumps(j) + "\n" for j in jobs),
-                           capture_output=True, text=True, timeout=timeout + 5)
+                           capture_output=True, text=True, timeout=max(300, 30 * timeout))
     except subprocess.TimeoutExpired:
         return [{"ok": False, "error": "timeout"} for _ in jobs]
     out = [json.loads(l) for l in p.stdout.split("\n") if l.strip()]
@@ -394,7 +397,7 @@ def explore_real(tier, rng, wd, drv, ex, ids, stats, violations):
     jobs = [{"units": s["units"], "constants": s["constants"], "mains": s["mains"], "io": s["io"],
              "text": s["id"] < n_compile} for s in sels]
     chunks = [jobs[i::8] for i in range(8)]
-    outs = pmap(lambda ch: run_helper(wd, vlib.REPO, ch, timeout=60) if ch else [], chunks, workers=8)
+    outs = pmap(lambda ch: run_helper(wd, vlib.REPO, ch, timeout=30) if ch else [], chunks, workers=8)
     results = [None] * len(jobs)
     for ci, o in enumerate(outs):
         for k, r in enumerate(o):
@@ -439,11 +442,15 @@ def explore_real(tier, rng, wd, drv, ex, ids, stats, violations):
             if not results[k].get("ok"):
                 continue            # already reported (script fails / does not terminate in-process)
             try:
-                p = subprocess.run([sys.executable, SCRIPT] + cli_args(s), cwd=vlib.REPO, timeout=60,
+                p = subprocess.run([sys.executable, SCRIPT] + cli_args(s), cwd=vlib.REPO, timeout=1200,
                                    capture_output=True, text=True, preexec_fn=_limits)
                 rc, out, err = p.returncode, p.stdout, p.stderr
             except subprocess.TimeoutExpired:
                 violations.append(viol_order("order-real", "make-single-file does not terminate (60 s) on this selection",
+                                             "cli-timeout", rec, False))
+                continue
+            if rc in (-24, -9, 152, 137):
+                violations.append(viol_order("order-real", "make-single-file does not terminate (60 s CPU) on this selection",
                                              "cli-timeout", rec, False))
                 continue
             if rc != 0:
@@ -668,8 +675,8 @@ def explore_synth(tier, rng, wd, drv, stats, violations):
         s2 = os.path.join(root, "multi.cc")
         with open(s2, "w") as f:
             f.write("".join('#include "%s"\n' % nm for nm in names) + asserts + "int main() {}\n")
-        r1 = run(["g++", "-std=c++14", "-fsyntax-only", "-I", sdir, s1], timeout=120)
-        r2 = run(["g++", "-std=c++14", "-fsyntax-only", "-I", os.path.join(root, "au", "code"), s2], timeout=120)
+        r1 = c20_cxx.run(["g++", "-std=c++14", "-fsyntax-only", "-I", sdir, s1], timeout=900)
+        r2 = c20_cxx.run(["g++", "-std=c++14", "-fsyntax-only", "-I", os.path.join(root, "au", "code"), s2], timeout=900)
         return job, r1, r2
     for job, r1, r2 in pmap(comp, compile_jobs):
         i, root, dag, path, names, text, rec = job
@@ -801,7 +808,6 @@ def main(tier, seed):
         stats["synth_s"] = round(time.time() - t1, 1)
         shutil.rmtree(os.path.join(wd, "synth"), ignore_errors=True)
         t1 = time.time()
-        import c20_cxx
         cwd = os.path.join(wd, "cxx")
         os.makedirs(cwd, exist_ok=True)
         cxx_stats, cxx_viol, observations = c20_cxx.explore(tier, seed, rng, cwd, compile_sels)
@@ -829,10 +835,11 @@ def main(tier, seed):
         "distribution": dict(stats, order_sizes={"min": min(sizes) if sizes else 0, "max": max(sizes) if sizes else 0,
                                                  "mean": round(sum(sizes) / max(1, len(sizes)), 1)},
                              cxx=cxx_stats, observations=observations,
-                             pending_findings=[{"class": v.get("class"), "what": v["what"][:200]} for v in pending]),
+                             pending_findings=sorted({(v.get("class"), v["what"][:200]) for v in pending})),
     }
-    for v in pending:
-        print("PENDING-FINDING: property=%s %s" % (PROP, v.get("class")))
+    for c in sorted({v.get("class") for v in pending}):
+        print("PENDING-FINDING: property=%s %s (%d matching case(s) this run)" %
+              (PROP, c, len([v for v in pending if v.get("class") == c])))
     if os.environ.get("C20_KEEP") != "1":
         shutil.rmtree(wd, ignore_errors=True)
     return finish(PROP, tier, seed, t0, proof, cov, violations, ASSUME)
